@@ -17,7 +17,7 @@ vars == << l, nrej, nfull, nprefix, nunsup >>
 
 RECURSIVE NeedsCare(_)
 NeedsCare(e) ==
-  CASE e.t = "ierr" -> TRUE
+  CASE e.t \in {"ierr", "oneof"} -> TRUE
     [] e.t = "arr" -> \E i \in 1..Len(e.a) : NeedsCare(e.a[i])
     [] e.t = "obj" -> e.uo \/ \E i \in 1..Len(e.o) : NeedsCare(e.o[i][1]) \/ NeedsCare(e.o[i][2])
     [] OTHER -> FALSE
@@ -27,6 +27,7 @@ RECURSIVE AgreeV(_, _)
 AgreeV(exp, act) ==
   IF ~NeedsCare(exp) THEN exp = act
   ELSE CASE exp.t = "ierr" -> act.t = "str"
+         [] exp.t = "oneof" -> \E i \in 1..Len(exp.alts) : AgreeV(exp.alts[i], act)
          [] exp.t = "arr" -> act.t = "arr" /\ Len(act.a) = Len(exp.a) /\ \A i \in 1..Len(exp.a) : AgreeV(exp.a[i], act.a[i])
          [] exp.t = "obj" ->
               act.t = "obj" /\ Len(act.o) = Len(exp.o) /\
